@@ -7,7 +7,7 @@
 (*   load error => some reference the loader had to resolve designates nothing              *)
 (*                 (dangling, wrong kind, pure reference cycle);                            *)
 (*   loading terminates without panic.                                                      *)
-EXTENDS Layout, FindingsC02, Json, CSV
+EXTENDS LoaderImpl, FindingsC02, Json, CSV
 
 Trace == ndJsonDeserialize("trace.ndjson")
 VARIABLE l
@@ -39,9 +39,42 @@ Failed(line) ==
 BadSites(line) == IF line.load # "ok" THEN <<>>
                   ELSE SelectSeq(line.sites, LAMBDA s : SiteBad(line.c.u, s) # "ok")
 
+(* model fidelity: the object each observed site resolved to is the one the implementation-shaped  *)
+(* resolver model LoaderImpl predicts (including the listed deviations)                             *)
+GoKind(k) == CASE k = "Schemas" -> "schemas" [] k = "Parameters" -> "parameters" [] k = "Headers" -> "headers"
+               [] k = "RequestBodies" -> "requestBodies" [] k = "Responses" -> "responses" [] k = "SecuritySchemes" -> "securitySchemes"
+               [] k = "Examples" -> "examples" [] k = "Links" -> "links" [] k = "Callbacks" -> "callbacks" [] OTHER -> k
+Strip(nm) == nm     \* "[X]" is compared through the table below
+BracketNames == [n \in {"A", "Acc", "B", "L", "Rec", "U", "V", "W", "X", "Y"} |-> "[" \o n \o "]"]
+NameOfBracket(b) == IF \E n \in DOMAIN BracketNames : BracketNames[n] = b
+                    THEN CHOOSE n \in DOMAIN BracketNames : BracketNames[n] = b ELSE ""
+KeyOf(u, pos, s) ==
+   IF s.owner = "root"
+   THEN IF Len(s.segs) >= 3 /\ s.segs[1] = "Components"
+        THEN LET k == GoKind(s.segs[2])  n == NameOfBracket(s.segs[3]) IN
+             IF n = "U" /\ pos = "comp" /\ SlotAt(u, Root, k, "U") = 0 THEN <<"use">> ELSE <<"root", k, n>>
+        ELSE <<"use">>
+   ELSE LET I == {i \in DOMAIN u.slots : IsConcrete(u.slots[i].c) /\ u.slots[i].c.id = s.owner} IN
+        IF I = {} THEN <<"unknown">>
+        ELSE LET i == CHOOSE x \in I : TRUE
+                 J == {j \in DOMAIN u.slots[i].c.ch : RefText(u.slots[i].c.ch[j].ref) = s.ref} IN
+             IF J = {} THEN <<"unknown">> ELSE <<"child", i, CHOOSE j \in J : TRUE>>
+
+ModelAgrees(line) ==
+   LET u == line.c.u  pos == line.c.pos IN
+   IF line.load = "error" THEN LoadFails(u, pos)
+   ELSE IF line.load # "ok" THEN TRUE
+   ELSE /\ ~LoadFails(u, pos)
+        /\ \A i \in DOMAIN line.sites :
+              LET key == KeyOf(u, pos, line.sites[i]) IN
+              key = <<"unknown">> \/ line.sites[i].got = PredictedId(u, pos, key)
+
 LineOK(line) ==
    LET bad == Failed(line) IN
-   bad = {} \/ CSVWrite("%1$s", <<ToJson([case |-> line.case, c |-> line.c, failed |-> bad, load |-> line.load,
+   /\ (line.c.entry = "file_rel_default" \/ ModelAgrees(line)
+        \/ CSVWrite("%1$s", <<ToJson([case |-> line.case, shape |-> line.c.shape, kind |-> line.c.kind, site |-> line.c.site,
+                                        load |-> line.load])>>, "fidelity.ndjson"))
+   /\ bad = {} \/ CSVWrite("%1$s", <<ToJson([case |-> line.case, c |-> line.c, failed |-> bad, load |-> line.load,
                                            err |-> (IF "err" \in DOMAIN line THEN line.err ELSE ""),
                                            badsites |-> BadSites(line), class |-> Class(line, bad, BadSites(line))])>>,
                         "violations.ndjson")
